@@ -396,3 +396,271 @@ Proof.
   - rewrite HM. intros m [<-|[]]. now left.
   - rewrite HC. intros [H|[]]. discriminate.
 Qed.
+
+(* ================= (C)/(D) with assumptions: truth-table level ================= *)
+
+Lemma filter_filter {A} (p q : A -> bool) (l : list A) :
+  filter q (filter p l) = filter (fun x => p x && q x) l.
+Proof.
+  induction l as [|x l IH]; [reflexivity|]. cbn [filter].
+  destruct (p x); cbn [filter andb]; [destruct (q x)|]; now rewrite IH.
+Qed.
+
+Lemma filter_length_split {A} (p : A -> bool) (l : list A) :
+  (length (filter p l) + length (filter (fun x => negb (p x)) l) = length l)%nat.
+Proof.
+  induction l as [|x l IH]; [reflexivity|]. cbn [filter].
+  destruct (p x); cbn [negb length]; lia.
+Qed.
+
+Lemma filter_length_all {A} (p : A -> bool) (l : list A) :
+  length (filter p l) = length l <-> forallb p l = true.
+Proof.
+  induction l as [|x l IH]; [cbn; tauto|]. cbn [filter forallb].
+  destruct (p x); cbn [length andb].
+  - rewrite <- IH. lia.
+  - pose proof (filter_length_le' p l). split; [lia|discriminate].
+Qed.
+
+Lemma filter_length_zero {A} (p : A -> bool) (l : list A) :
+  length (filter p l) = 0%nat <-> forallb (fun x => negb (p x)) l = true.
+Proof.
+  induction l as [|x l IH]; [cbn; tauto|]. cbn [filter forallb].
+  destruct (p x); cbn [length negb andb]; [split; [lia|discriminate]|exact IH].
+Qed.
+
+Lemma contains_all_snoc (A : cfg) (x : Z) (m : cfg) :
+  contains_all (A ++ [x]) m = contains_all A m && memZ x m.
+Proof. unfold contains_all. rewrite forallb_app. cbn [forallb]. now rewrite andb_true_r. Qed.
+
+Lemma contains_all_spec (A m : cfg) : contains_all A m = true <-> (forall a, In a A -> In a m).
+Proof.
+  unfold contains_all. rewrite forallb_forall. split; intros H a Ha.
+  - apply memZ_In. now apply H.
+  - apply memZ_In. now apply H.
+Qed.
+
+Lemma ModelsA_In (C : circuit) (n : nat) (A m : cfg) :
+  In m (ModelsA C n A) <-> In m (Models C n) /\ (forall a, In a A -> In a m).
+Proof. unfold ModelsA. now rewrite filter_In, contains_all_spec. Qed.
+
+Lemma ModelsA_snoc (C : circuit) (n : nat) (A : cfg) (x : Z) :
+  ModelsA C n (A ++ [x]) = filter (memZ x) (ModelsA C n A).
+Proof.
+  unfold ModelsA. rewrite filter_filter. apply filter_ext. intros m. apply contains_all_snoc.
+Qed.
+
+(* "l is fixed": every model that contains A contains l (decided over the finite table) *)
+Definition fixedb (C : circuit) (n : nat) (A : cfg) (l : Z) : bool :=
+  forallb (memZ l) (ModelsA C n A).
+
+Lemma fixedb_spec (C : circuit) (n : nat) (A : cfg) (l : Z) :
+  fixedb C n A l = true <-> (forall m, In m (ModelsA C n A) -> In l m).
+Proof.
+  unfold fixedb. rewrite forallb_forall. split; intros H m Hm.
+  - apply memZ_In. now apply H.
+  - apply memZ_In. now apply H.
+Qed.
+
+Lemma fixedb_unsat (C : circuit) (n : nat) (A : cfg) (l : Z) :
+  MCA C n A = 0 -> fixedb C n A l = true.
+Proof.
+  unfold MCA, fixedb. intros H. destruct (ModelsA C n A); [reflexivity|cbn in H; lia].
+Qed.
+
+(* (D) per-candidate criterion, boolean and propositional form; no hypothesis on C, A or x *)
+Lemma MCA_snoc_eq_fixedb (C : circuit) (n : nat) (A : cfg) (x : Z) :
+  MCA C n (A ++ [x]) = MCA C n A <-> fixedb C n A x = true.
+Proof.
+  unfold MCA, fixedb. rewrite ModelsA_snoc, <- filter_length_all. lia.
+Qed.
+
+Theorem candidate_criterion (C : circuit) (n : nat) (A : cfg) (x : Z) :
+  MCA C n (A ++ [x]) = MCA C n A <-> (forall m, In m (ModelsA C n A) -> In x m).
+Proof. now rewrite MCA_snoc_eq_fixedb, fixedb_spec. Qed.
+
+Lemma ModelsA_in_table (C : circuit) (n : nat) (A m : cfg) :
+  In m (ModelsA C n A) -> In m (all_cfgs n).
+Proof. intros H. apply ModelsA_In in H. apply (Models_in_table C n m), H. Qed.
+
+Lemma MCA_snoc_zero_fixedb (C : circuit) (n : nat) (A : cfg) (v : Z) :
+  1 <= v <= Z.of_nat n ->
+  (MCA C n (A ++ [v]) = 0 <-> fixedb C n A (- v) = true).
+Proof.
+  intros Hv. unfold MCA, fixedb. rewrite ModelsA_snoc.
+  rewrite <- Nat2Z.inj_0, Nat2Z.inj_iff, filter_length_zero, !forallb_forall.
+  split; intros H m Hm.
+  - rewrite (table_memZ_opp n m v (ModelsA_in_table C n A m Hm) Hv). now apply H.
+  - rewrite <- (table_memZ_opp n m v (ModelsA_in_table C n A m Hm) Hv). now apply H.
+Qed.
+
+Theorem candidate_dead_criterion (C : circuit) (n : nat) (A : cfg) (v : Z) :
+  1 <= v <= Z.of_nat n ->
+  (MCA C n (A ++ [v]) = 0 <-> (forall m, In m (ModelsA C n A) -> In (- v) m)).
+Proof. intros Hv. now rewrite (MCA_snoc_zero_fixedb C n A v Hv), fixedb_spec. Qed.
+
+(* every model contains exactly one of v, -v *)
+Theorem MCA_split (C : circuit) (n : nat) (A : cfg) (v : Z) :
+  1 <= v <= Z.of_nat n ->
+  MCA C n (A ++ [v]) + MCA C n (A ++ [- v]) = MCA C n A.
+Proof.
+  intros Hv. unfold MCA. rewrite !ModelsA_snoc.
+  rewrite <- (filter_length_split (memZ v) (ModelsA C n A)), Nat2Z.inj_add.
+  f_equal. f_equal. f_equal. apply filter_ext_in. intros m Hm.
+  exact (table_memZ_opp n m v (ModelsA_in_table C n A m Hm) Hv).
+Qed.
+
+(* ---------- the loop of core_dead_with_assumptions over an abstract counting function ---------- *)
+
+Definition core_dead_step (cnt : cfg -> Z) (A : cfg) (reference : Z) (out : cfg) (i : Z) : cfg :=
+  let inter := cnt (A ++ [i]) in
+  let out1 := if reference =? inter then out ++ [i] else out in
+  if inter =? 0 then out1 ++ [- i] else out1.
+
+Definition core_dead_spec (cnt : cfg -> Z) (n : nat) (A : cfg) : cfg :=
+  fold_left (core_dead_step cnt A (cnt A)) (zseq 1 n) [].
+
+(* the semantic answer, in the order the loop reports it *)
+Definition core_dead_sem (C : circuit) (n : nat) (A : cfg) : cfg :=
+  flat_map (fun i => (if fixedb C n A i then [i] else []) ++
+                     (if fixedb C n A (- i) then [- i] else []))
+           (zseq 1 n).
+
+Lemma core_dead_fold_flat_map (cnt : cfg -> Z) (A : cfg) (r : Z) (L : list Z) (out : cfg) :
+  fold_left (core_dead_step cnt A r) L out =
+  out ++ flat_map (fun i => (if r =? cnt (A ++ [i]) then [i] else []) ++
+                            (if cnt (A ++ [i]) =? 0 then [- i] else [])) L.
+Proof.
+  revert out. induction L as [|i L IH]; intros out; [cbn; now rewrite app_nil_r|].
+  cbn [fold_left flat_map]. rewrite IH. unfold core_dead_step.
+  destruct (r =? cnt (A ++ [i])), (cnt (A ++ [i]) =? 0); cbn [app];
+    rewrite <- ?app_assoc; reflexivity.
+Qed.
+
+Lemma flat_map_ext_in' {A B} (f g : A -> list B) (l : list A) :
+  (forall x, In x l -> f x = g x) -> flat_map f l = flat_map g l.
+Proof.
+  induction l as [|x l IH]; intros H; [reflexivity|]. cbn [flat_map].
+  rewrite (H x (or_introl eq_refl)), IH; [reflexivity|]. intros y Hy. apply H. now right.
+Qed.
+
+(* (C) no hypothesis on C or A is needed at truth-table level (in particular A may be empty,
+   out of range, contradictory or unsatisfiable: then both polarities of every feature) *)
+Theorem core_dead_spec_correct_gen (C : circuit) (n : nat) (A : cfg) :
+  core_dead_spec (MCA C n) n A = core_dead_sem C n A.
+Proof.
+  unfold core_dead_spec, core_dead_sem. rewrite core_dead_fold_flat_map. cbn [app].
+  apply flat_map_ext_in'. intros i Hi. apply zseq_In in Hi.
+  assert (Hv : 1 <= i <= Z.of_nat n) by lia.
+  assert (E1 : (MCA C n A =? MCA C n (A ++ [i])) = fixedb C n A i).
+  { apply eq_true_iff_eq. rewrite Z.eqb_eq, <- MCA_snoc_eq_fixedb. split; congruence. }
+  assert (E2 : (MCA C n (A ++ [i]) =? 0) = fixedb C n A (- i)).
+  { apply eq_true_iff_eq. rewrite Z.eqb_eq. exact (MCA_snoc_zero_fixedb C n A i Hv). }
+  now rewrite E1, E2.
+Qed.
+
+Theorem core_dead_spec_correct (C : circuit) (n : nat) (A : cfg) :
+  WF C n -> in_range n A -> A <> [] ->
+  core_dead_spec (MCA C n) n A =
+  flat_map (fun i => (if fixedb C n A i then [i] else []) ++
+                     (if fixedb C n A (- i) then [- i] else []))
+           (zseq 1 n).
+Proof. intros _ _ _. apply core_dead_spec_correct_gen. Qed.
+
+(* membership form *)
+Lemma core_dead_sem_In (C : circuit) (n : nat) (A : cfg) (l : Z) :
+  In l (core_dead_sem C n A) <->
+  1 <= Z.abs l <= Z.of_nat n /\ (forall m, In m (ModelsA C n A) -> In l m).
+Proof.
+  unfold core_dead_sem. rewrite in_flat_map. rewrite <- fixedb_spec. split.
+  - intros [i [Hi Hl]]. apply zseq_In in Hi. apply in_app_iff in Hl.
+    destruct Hl as [Hl|Hl].
+    + destruct (fixedb C n A i) eqn:E; [|destruct Hl]. destruct Hl as [<-|[]]. split; [lia|exact E].
+    + destruct (fixedb C n A (- i)) eqn:E; [|destruct Hl]. destruct Hl as [<-|[]]. split; [lia|exact E].
+  - intros [Hr Hf]. exists (Z.abs l). split; [apply zseq_In; lia|].
+    apply in_app_iff. destruct (Z.abs_spec l) as [[Hs ->]|[Hs ->]].
+    + left. rewrite Hf. now left.
+    + right. rewrite Z.opp_involutive, Hf. now left.
+Qed.
+
+Corollary core_dead_spec_In (C : circuit) (n : nat) (A : cfg) (l : Z) :
+  In l (core_dead_spec (MCA C n) n A) <->
+  1 <= Z.abs l <= Z.of_nat n /\ (forall m, In m (ModelsA C n A) -> In l m).
+Proof. rewrite core_dead_spec_correct_gen. apply core_dead_sem_In. Qed.
+
+Corollary core_dead_spec_unsat (C : circuit) (n : nat) (A : cfg) :
+  MCA C n A = 0 ->
+  core_dead_spec (MCA C n) n A = flat_map (fun i => [i; - i]) (zseq 1 n).
+Proof.
+  intros H. rewrite core_dead_spec_correct_gen. unfold core_dead_sem.
+  apply flat_map_ext. intros i. now rewrite !(fixedb_unsat C n A _ H).
+Qed.
+
+(* ================= glue: the algorithm over execute_query ================= *)
+
+Definition cd_loop_step (d : ddnnf) (A : cfg) (reference : Z) (acc : scratch * cfg) (i : Z)
+  : scratch * cfg :=
+  let '(s', out) := acc in
+  let '(s'', inter) := execute_query d (A ++ [i]) s' in
+  let out1 := if reference =? inter then out ++ [i] else out in
+  let out2 := if inter =? 0 then out1 ++ [- i] else out1 in
+  (s'', out2).
+
+Lemma core_dead_unfold (d : ddnnf) (A : cfg) (s : scratch) :
+  A <> [] ->
+  core_dead_with_assumptions d A s =
+  let '(s0, reference) := execute_query d A s in
+  fold_left (cd_loop_step d A reference) (zseq 1 (nv d)) (s0, []).
+Proof. destruct A as [|a A]; [congruence|reflexivity]. Qed.
+
+Lemma in_range_snoc (n : nat) (A : cfg) (i : Z) :
+  in_range n A -> 1 <= i <= Z.of_nat n -> in_range n (A ++ [i]).
+Proof.
+  intros HA Hi l Hl. apply in_app_iff in Hl. destruct Hl as [Hl|[<-|[]]]; [now apply HA|lia].
+Qed.
+
+Section Glue.
+Variables (C : circuit) (n : nat).
+(* to be discharged by the (separately developed) correctness theorem of execute_query *)
+Hypothesis H_exec : forall A s, in_range n A -> Clean C s ->
+  exists s', execute_query (build C n) A s = (s', MCA C n A) /\ Clean C s'.
+
+Lemma cd_loop_glue (A : cfg) (r : Z) (L : list Z) :
+  in_range n A -> (forall i, In i L -> 1 <= i <= Z.of_nat n) ->
+  forall s out, Clean C s ->
+  exists s', fold_left (cd_loop_step (build C n) A r) L (s, out) =
+             (s', fold_left (core_dead_step (MCA C n) A r) L out) /\ Clean C s'.
+Proof.
+  intros HA. induction L as [|i L IH]; intros HL s out Hcl.
+  - exists s. split; [reflexivity|exact Hcl].
+  - cbn [fold_left].
+    destruct (H_exec (A ++ [i]) s (in_range_snoc n A i HA (HL i (or_introl eq_refl))) Hcl)
+      as [s1 [He Hcl1]].
+    destruct (IH (fun j Hj => HL j (or_intror Hj)) s1 (core_dead_step (MCA C n) A r out i) Hcl1)
+      as [s2 [Hf Hcl2]].
+    exists s2. split; [|exact Hcl2]. rewrite <- Hf. f_equal.
+    unfold cd_loop_step. rewrite He. reflexivity.
+Qed.
+
+Theorem core_dead_glue (A : cfg) (s : scratch) :
+  A <> [] -> in_range n A -> Clean C s ->
+  exists s', core_dead_with_assumptions (build C n) A s = (s', core_dead_spec (MCA C n) n A)
+             /\ Clean C s'.
+Proof.
+  intros Hne HA Hcl. rewrite (core_dead_unfold _ A s Hne).
+  destruct (H_exec A s HA Hcl) as [s0 [He Hcl0]]. rewrite He.
+  change (nv (build C n)) with n.
+  apply (cd_loop_glue A (MCA C n A) (zseq 1 n) HA); [|exact Hcl0].
+  intros i Hi. apply zseq_In in Hi. lia.
+Qed.
+
+Corollary core_dead_with_assumptions_correct (A : cfg) (s : scratch) :
+  A <> [] -> in_range n A -> Clean C s ->
+  exists s', core_dead_with_assumptions (build C n) A s = (s', core_dead_sem C n A)
+             /\ Clean C s'.
+Proof.
+  intros Hne HA Hcl. destruct (core_dead_glue A s Hne HA Hcl) as [s' [He Hcl']].
+  exists s'. split; [|exact Hcl']. now rewrite He, core_dead_spec_correct_gen.
+Qed.
+
+End Glue.
